@@ -8,7 +8,8 @@
    index or slice expression the decoder evaluates reaches beyond the length of the slice it was
    given: this is both "never panics" and "never reads memory beyond the slice" (DESIGN.md section 3).
    Every statement quantifies over ALL byte strings (lists of arbitrary numbers, not even < 256 is
-   needed), all previous receivers, every dialect value d, every GBK conversion function gbk.
+   needed), all previous receivers (C03_msg_history_seq: all receivers reachable from a fresh one, which
+   is what its statement is about), every dialect value d, every GBK conversion function gbk.
    ver is Header.ProtocolVersion: the three defined values 1 (2011), 2 (2013), 3 (2019).
    The models are those of the tree after the fix: commits recorded in known_findings.json. *)
 From JT.Base Require Import Prelude.
